@@ -14,7 +14,7 @@ UNSUPPORTED = ["notes.txt", "README", "Makefile", "a.PY", "a.py.bak", "data.json
 ODD_SUPPORTED = ["SConstruct", "src/SConscript"]       # Pygments maps these names to Python
 WEIRD = ['we"ird.py', "back\\slash.py", "café.py", "sp ace.js", "src/qu'ote.ts", "-dash.py", "files.py", "tree/files.js",
          "codebase/totals.c", "a b/c d.py", "ünï/cödé.ts", "x" * 120 + ".py", "src/profile/entries.java", "root.cs", "..py", "a..b.js",
-         "src/[brackets].py", "50%.c", "dollar$.ts", "semi;colon.py",
+         "src/[brackets].py", "pages/users/[id].ts", "gen[/v2].py", "50%.c", "dollar$.ts", "semi;colon.py",
          "cafe\u0301.py", "src/nai\u0308ve/u\u0308ber.js",      # decomposed (NFD) spellings, next to NFC café.py
          "caf\udce9.py", "caf\udce8.py"]                         # two names that differ only in a non-UTF-8 byte                                          # a name that is not valid UTF-8 (byte E9)
 DISTRACTOR_DIRS = ["src", "lib", "pkg", "x/y"]
@@ -108,6 +108,13 @@ def base_tree(rng, n_lo=3, n_hi=9, p_bad=0.15, long_bias=0.0, weird=0.0, extras=
             twin = new_path(rng, other)
             if not any(q == twin or q.startswith(twin + "/") or twin.startswith(q + "/") for q in placed):
                 placed[twin] = placed[src]
+    if placed and rng.random() < 0.2:
+        # a byte-identical copy of a file next to it (same folder, same language)
+        src = rng.choice(sorted(placed))
+        d, _, b = src.rpartition("/")
+        dup = (d + "/" if d else "") + "copy_of_" + b
+        if dup not in placed:
+            placed[dup] = placed[src]
     for p, c in placed.items():
         ops.append({"op": "write", "path": p, "content": c})
     if placed and rng.random() < links:
